@@ -401,6 +401,11 @@ def check_env_restoring_functions(rep, cross, specs=None, pid='C11'):
             iv = e.st.store[a]
             envv = iv.fields.get(F['env'])
             g = z3.BoolVal(isinstance(envv, Opaque)) if not isinstance(envv, Opaque) else envv.id == env0.id
+            # a run that is handed over to step() (eval returning Suspended) stays in its scope, but then the start environment is
+            # remembered in active_saved_env for step()'s terminal bookkeeping
+            sv = iv.fields.get(F['active_saved_env'])
+            if meth == 'eval' and isinstance(sv, EnumV) and isinstance(sv.discr, int) and sv.discr == 1 and isinstance(sv.payload[1][0], Opaque):
+                g = z3.Or(g, sv.payload[1][0].id == env0.id)
             if check_path:
                 pv = iv.fields.get(F['current_module_path'])
                 g = z3.And(g, ledger_same_opt(pv, path0))
